@@ -259,8 +259,14 @@ def gen_falsy_leaf(rng, kinds):
         return ["cmp", rng.choice(["==", "!="]), ["v", vi, pp + [["a", "t"]]], ["tup", []]]
     if k < 0.8:
         return ["truth", rng.choice([flag, ["v", vi, pp + [["a", "t"]]], ["v", vi, pp + [["a", "s"]]], ["v", vi, [["a", "a"]]]])]
-    if k < 0.9:
+    if k < 0.88:
         return ["cmp", rng.choice(list(OPS)), ["v", vi, [["a", rng.choice("ab")]]], ["lit", 0]]
+    if k < 0.95:
+        # a dict entry that is present and holds None / a falsy value
+        dm = ["v", vi, pp + [["a", "d"], ["i", "m"]]]
+        if rng.random() < 0.7:
+            return ["cmp", rng.choice(["==", "!="]), dm, ["lit", rng.choice([None, None, 0, "", "z"])]]
+        return ["in", dm, ["tup", rng.choice([[None, "z"], [0, ""], [None], ["z", 1]])]]
     return ["cmp", "==", ["v", vi, pp + [["a", "d"], ["i", "k"]]], ["lit", 0]]
 
 
